@@ -521,11 +521,19 @@ def gen_case(rng: common.Rng, topo: str | None = None) -> dict[str, Any]:
     # anchor: the exact solution is dyadic at (x0, y0)
     cpl_all = sorted({k for got in cin for k in got})
     dvars = sorted({v for d in dins for v in d})
-    x0 = {v: [_dy(rng, -2, 2, 4) for _ in range(size[v])] for v in dvars}
+    # integer design variables (never couplings): none / all of them / some of them
+    int_mode = rng.pick(["none", "none", "none", "none", "all", "some", "some"])
+    ints = set(dvars) if int_mode == "all" else {v for v in dvars if rng.chance(0.5)} if int_mode == "some" else set()
+
+    def coord(v: str, lo: int = -2, hi: int = 2) -> Fraction:
+        return Fraction(rng.randint(lo, hi)) if v in ints else _dy(rng, lo, hi, 4)
+
+    x0 = {v: [coord(v) for _ in range(size[v])] for v in dvars}
     y0 = {k: [_dy(rng, -2, 2, 4) for _ in range(size[k])] for k in cpl_all}
     discs = []
     fnames: list[str] = []
     gnames: list[str] = []
+    vanish: list[dict[str, Any]] = []
     for i in range(n):
         ins = dins[i] + cin[i] + params[i]
         rng.shuffle(ins)
@@ -572,6 +580,26 @@ def gen_case(rng: common.Rng, topo: str | None = None) -> dict[str, Any]:
         if rng.chance(0.7):
             outs.append([f"g{i + 1}", fun(rng.pick([1, 2, 3]), rng.chance(0.5))])
             gnames.append(f"g{i + 1}")
+        # a Jacobian block that vanishes at some points: d o / d v = 2 Q diag(v - z0) (z0 = 0: proportional to v)
+        fouts = [sp for o, sp in outs if o not in cout[i]]
+        movable = [v for v in ins if v not in params[i]]
+        if fouts and movable and rng.chance(0.6):
+            sp = rng.pick(fouts)
+            v = rng.pick([w for w in movable if w in dins[i]] or movable) if rng.chance(0.8) else rng.pick(movable)
+            m = len(sp["const"])
+            q = sp["quad"].get(v)
+            if q is None or not any(a != 0 for row in q for a in row):
+                q = _block(rng, m, size[v], 0.9, -1, 1, 4)
+                if not any(a != 0 for row in q for a in row):
+                    q[0][0] = Fraction(1, 2)
+            z0 = [Fraction(0)] * size[v] if rng.chance(0.5) else [coord(v) if v in x0 else _dy(rng, -2, 2, 4) for _ in range(size[v])]
+            sp["quad"][v] = q
+            lin_v = [[-2 * a * z for a, z in zip(row, z0)] for row in q]
+            if any(a != 0 for row in lin_v for a in row) or rng.chance(0.5):
+                sp["lin"][v] = lin_v
+            else:
+                sp["lin"].pop(v, None)
+            vanish.append({"disc": f"D{i + 1}", "out": next(o for o, t in outs if t is sp), "var": v, "z0": [rat(z) for z in z0]})
         rng.shuffle(outs)
         lin_outs = [o for o, s in outs if not s["quad"]]
         declare = []
@@ -581,8 +609,9 @@ def gen_case(rng: common.Rng, topo: str | None = None) -> dict[str, Any]:
         elif mode == "some":
             declare = [o for o in lin_outs if rng.chance(0.5)]
         discs.append({"name": f"D{i + 1}", "ins": [[v, size[v]] for v in ins], "defaults": defaults, "outs": outs,
-                      "declare_linear": declare})
-    case: dict[str, Any] = {"topo": topo, "discs": discs}
+                      "declare_linear": declare,
+                      "jac_storage": rng.pick(["dense", "dense", "csr", "csr", "csc", "coo", "mixed", "mixed"])})
+    case: dict[str, Any] = {"topo": topo, "discs": discs, "vanish": vanish}
     # constants of the couplings so that y0 solves the system at x0
     point0 = {**x0, **y0}
     for d in discs:
@@ -604,6 +633,8 @@ def gen_case(rng: common.Rng, topo: str | None = None) -> dict[str, Any]:
     if rng.chance(0.15):
         names.append("u")
         size["u"] = rng.pick([1, 2])
+        if int_mode == "all" or (int_mode == "some" and rng.chance(0.5)):
+            ints.add("u")
     rng.shuffle(names)
     has_value = rng.chance(0.85)
     pow2 = rng.chance(0.7)
@@ -620,8 +651,10 @@ def gen_case(rng: common.Rng, topo: str | None = None) -> dict[str, Any]:
             ubs = [Fraction(rng.pick([4, 4, 8]))] * m
         val = None
         if has_value:
-            val = [rat(_dy(rng, -2, 2, 4)) for _ in range(m)]
+            val = [rat(coord(v)) for _ in range(m)]
         ds.append({"name": v, "size": m, "lb": [rat(a) for a in lbs], "ub": [rat(a) for a in ubs], "value": val})
+        if v in ints:
+            ds[-1]["type"] = "integer"
     case["ds"] = ds
     # objective and constraints
     cands_obj = list(fnames)
@@ -670,7 +703,7 @@ def gen_case(rng: common.Rng, topo: str | None = None) -> dict[str, Any]:
     # points
     pts = [{"kind": "anchor", "x": {v: [rat(a) for a in x0[v]] for v in x0}, "t": {k: [rat(a) for a in y0[k]] for k in y0}}]
     for _ in range(2):
-        x = {v: [rat(_dy(rng, -2, 2, 4)) for _ in range(size[v])] for v in dvars}
+        x = {v: [rat(coord(v)) for _ in range(size[v])] for v in dvars}
         t = {k: [rat(_dy(rng, -3, 3, 4)) for _ in range(size[k])] for k in cpl_all}
         pts.append({"kind": "arb", "x": x, "t": t})
     # perturbation of the anchor in one coupling component
@@ -680,10 +713,23 @@ def gen_case(rng: common.Rng, topo: str | None = None) -> dict[str, Any]:
         j = rng.randrange(size[k])
         t[k][j] = rat(y0[k][j] + rng.pick([Fraction(1, 4), Fraction(-1, 2), Fraction(1)]))
         pts.append({"kind": "perturbed", "x": pts[0]["x"], "t": t})
+    # a point with integer coordinates (the caller may write it as an integer array)
+    pts.append({"kind": "intpt", "x": {v: [rat(Fraction(rng.randint(-2, 2))) for _ in range(size[v])] for v in dvars},
+                "t": {k: [rat(Fraction(rng.randint(-3, 3))) for _ in range(size[k])] for k in cpl_all}})
+    # a point where the vanishing Jacobian blocks are exactly zero, after the points where they are not
+    if vanish:
+        p = copy.deepcopy(pts[1])
+        p["kind"] = "vanish"
+        for e in vanish:
+            (p["x"] if e["var"] in p["x"] else p["t"])[e["var"]] = list(e["z0"])
+        pts.append(p)
     if "u" in size:
         for p in pts:
-            p["x"]["u"] = [rat(_dy(rng, -2, 2, 4)) for _ in range(size["u"])]
+            p["x"]["u"] = [rat(coord("u")) for _ in range(size["u"])]
     case["points"] = pts
+    # the dtype of the arrays in which the caller writes the design points: float64, or int64 for the points
+    # whose coordinates are all integers, or float32 for the points that float32 represents exactly
+    case["xdtype"] = rng.pick(["float64", "float64", "int", "int", "int", "float32"])
     # how the functions are used: caller's input array (fresh copy per call / one array updated in place),
     # parallel IDF (number of processes, which normalisation goes with which start, threads or processes),
     # which formulation is run through a DOE scenario (and on which kind of design space)
@@ -733,6 +779,20 @@ def valid_case(case) -> bool:
                 return False
             if v["name"] in all_outputs(case) and v["name"] not in cpl:
                 return False
+            if v.get("type", "float") not in ("float", "integer"):
+                return False
+            if v.get("type") == "integer":
+                # an integer variable is a design variable (never a computed coupling) with integer bounds and values
+                if v["name"] in cpl:
+                    return False
+                if any(P(a).denominator != 1 for a in [*v["lb"], *v["ub"], *(v["value"] or [])]):
+                    return False
+                if any(P(a).denominator != 1 for p in case["points"] for a in p["x"].get(v["name"], [])):
+                    return False
+        if case.get("xdtype", "float64") not in ("float64", "int", "float32"):
+            return False
+        if any(d.get("jac_storage", "dense") not in ("dense", "csr", "csc", "coo", "mixed") for d in case["discs"]):
+            return False
         # contractive couplings: max-norm of the coupling matrix <= 1/2
         for k in cpl:
             d = producer(case, k)
@@ -803,7 +863,8 @@ def build_discs(case):
             for o, s in d["outs"]
         }
         defaults = {k: [float(P(a)) for a in v] for k, v in d.get("defaults", {}).items()}
-        out.append(QDisc(d["name"], {n: s for n, s in d["ins"]}, outs, d.get("declare_linear", ()), defaults))
+        out.append(QDisc(d["name"], {n: s for n, s in d["ins"]}, outs, d.get("declare_linear", ()), defaults,
+                         jac_storage=d.get("jac_storage", "dense")))
     return out
 
 
@@ -818,8 +879,13 @@ def build_ds(case):
             lower_bound=np.array([float(P(a)) for a in v["lb"]]),
             upper_bound=np.array([float(P(a)) for a in v["ub"]]),
             value=None if v["value"] is None else np.array([float(P(a)) for a in v["value"]]),
+            type_=v.get("type", "float"),
         )
     return ds
+
+
+def int_names(case) -> set[str]:
+    return {v["name"] for v in case["ds"] if v.get("type") == "integer"}
 
 
 MDA_SETTINGS = {"tolerance": 1e-14, "max_mda_iter": 300}
@@ -921,6 +987,17 @@ def _jac(j, nrows: int) -> list[list[float]]:
     return [[float(c) for c in row] for row in a]
 
 
+def typed_vector(xv: np.ndarray, xdtype: str) -> tuple[np.ndarray, str]:
+    """The array in which the caller writes the design point: int64 when the caller works with integer arrays and
+    every coordinate is an integer, float32 when the caller works in single precision and the point is exactly
+    representable, float64 otherwise.  The array always holds exactly the numbers of `xv`."""
+    if xdtype == "int" and all(float(a).is_integer() for a in xv):
+        return xv.astype(np.int64), "int64"
+    if xdtype == "float32" and all(float(np.float32(a)) == float(a) for a in xv):
+        return xv.astype(np.float32), "float32"
+    return xv, "float64"
+
+
 def float_points(case) -> list[dict[str, Any]]:
     """The evaluation points in floats: for every case point (x, t) also (x, float(y*(x)))."""
     cpl = couplings(case)
@@ -944,7 +1021,7 @@ def eval_todo(cfg, p) -> list[tuple[str, dict[str, list[float]]]]:
     if cfg["form"] == "IDF":
         if p["tf"] is not None:
             todo.append(("given", {**p["xf"], **p["tf"]}))
-        if p["ystar_f"] is not None and p["kind"] in ("anchor", "arb"):
+        if p["ystar_f"] is not None and p["kind"] in ("anchor", "arb", "intpt", "vanish"):
             todo.append(("consistent", {**p["xf"], **p["ystar_f"]}))
     else:
         todo.append(("x", dict(p["xf"])))
@@ -1002,7 +1079,8 @@ def observe_config(case, cfg, fpts, in_process: bool = False) -> dict[str, Any]:
     evals = []
     shared = case.get("xmode") == "shared"
     obs["xmode"] = "shared" if shared else "fresh"
-    xbuf = None  # the caller's own input array, updated in place between the calls (shared mode)
+    xdtype = case.get("xdtype", "float64")
+    xbufs: dict[str, np.ndarray] = {}  # the caller's own input arrays (one per dtype), updated in place (shared mode)
     held = []
     # processes: every discipline execution forks; two points are enough to see the configuration
     pts = list(fpts[:2] if is_process_parallel(cfg) else fpts)
@@ -1015,21 +1093,22 @@ def observe_config(case, cfg, fpts, in_process: bool = False) -> dict[str, Any]:
         for tag, point in eval_todo(cfg, p):
             rec: dict[str, Any] = {"tag": tag, "kind": p["kind"], "point": point}
             try:
-                xv = point_vector(case, names, point)
+                xv, rec["dtype"] = typed_vector(point_vector(case, names, point), xdtype)
                 if shared:
-                    if xbuf is None:
-                        xbuf = np.empty_like(xv)
-                    xbuf[:] = xv
+                    if rec["dtype"] not in xbufs:
+                        xbufs[rec["dtype"]] = np.empty_like(xv)
+                    xbufs[rec["dtype"]][:] = xv
+                    xv = xbufs[rec["dtype"]]
                 rec["vals"] = []
                 rec["jacs"] = []
                 raw_v, raw_j = [], []
                 for f in funcs:
-                    raw_v.append(f.evaluate(xbuf if shared else xv.copy()))
+                    raw_v.append(f.evaluate(xv if shared else xv.copy()))
                     rec["vals"].append(_val(raw_v[-1]))
-                    raw_j.append(f.jac(xbuf if shared else xv.copy()))
+                    raw_j.append(f.jac(xv if shared else xv.copy()))
                     rec["jacs"].append(_jac(raw_j[-1], len(rec["vals"][-1])))
                 # second evaluation at the same point: masks and adapter buffers are reused
-                v2 = _val(funcs[0].evaluate(xbuf if shared else xv.copy()))
+                v2 = _val(funcs[0].evaluate(xv if shared else xv.copy()))
                 rec["again"] = v2 == rec["vals"][0]
                 held.append((rec, raw_v, raw_j))
             except Exception as e:  # noqa: BLE001
@@ -1042,6 +1121,32 @@ def observe_config(case, cfg, fpts, in_process: bool = False) -> dict[str, Any]:
             rec["held_jacs"] = [_jac(j, 0) for j in raw_j]
         except Exception as e:  # noqa: BLE001
             rec["held_error"] = repr(e)[:200]
+    # problem-level entry point: the point is installed as the current value of the design space and the
+    # functions are evaluated through `OptimizationProblem.evaluate_functions` without a design vector (the array
+    # the functions receive is then the design space's own current-value array: int64 for an all-integer space)
+    if len({f.name for f in funcs}) == len(funcs) and not is_process_parallel(cfg):
+        done = 0
+        for p in reversed(pts):
+            if done >= 2:
+                break
+            todo = [tp for tp in eval_todo(cfg, p) if tp[0] != "consistent"]
+            for tag, point in todo[:1]:
+                if p["kind"] == "start" or not in_bounds(case, {n: point[n] for n in names}):
+                    continue
+                done += 1
+                rec = {"tag": tag, "kind": p["kind"], "point": point, "via": "evaluate_functions@current", "again": True}
+                try:
+                    xv, _ = typed_vector(point_vector(case, names, point), xdtype)
+                    pb.design_space.set_current_value(xv)
+                    rec["dtype"] = str(pb.design_space.get_current_value().dtype)
+                    out, jac = pb.evaluate_functions(design_vector=None, design_vector_is_normalized=False,
+                                                     output_functions=funcs, jacobian_functions=funcs)
+                    rec["vals"] = [_val(out[f.name]) for f in funcs]
+                    rec["jacs"] = [_jac(jac[f.name], len(v)) for f, v in zip(funcs, rec["vals"])]
+                except Exception as e:  # noqa: BLE001
+                    rec["error"] = common.exc_class(e)
+                    rec["error_msg"] = repr(e)[:300] + common.short_tb(e, 3)
+                evals.append(rec)
     obs["evals"] = evals
     return obs
 
@@ -1058,7 +1163,9 @@ def doe_config(case):
     cands = [c for c in configs(case) if not is_process_parallel(c) and not c.get("eq") and expected_names(case, c["form"]) is not None]
     if not cands:
         return None
-    return cands[int(doe["pick"]) % len(cands)], bool(doe.get("normalize"))
+    # (with integer variables the samples are always given in the design space: the unit-cube convention used below
+    # for normalize_design_space=True does not apply to the integer components)
+    return cands[int(doe["pick"]) % len(cands)], bool(doe.get("normalize")) and not int_names(case)
 
 
 def in_bounds(case, point: dict[str, list[float]]) -> bool:
@@ -1315,8 +1422,24 @@ def oracle_config(case, obs) -> list[tuple[str, str]]:
         if obs["f_types"][k] != want_types[k]:
             bad.append((f"{form.lower()}-constraint-type", f"{ck}: constraint {k - 1} has type {obs['f_types'][k]!r} instead of {want_types[k]!r}"))
     udn = used_design_names(case)
+    # input distribution: (function, variable) Jacobian blocks that are exactly zero at a point of the history
+    # after having been non-zero at an earlier point of the same history (same function objects)
+    stats: dict[str, int] = {}
+    obs["stats"] = stats
+    seen_nonzero: set[tuple[int, str]] = set()
+    off_n, _tot_n = layout(case, names)
+
+    def note_blocks(k: int, ej) -> None:
+        for n in names:
+            cols = range(off_n[n], off_n[n] + var_size(case, n))
+            zero = all(row[c] == 0 for row in ej for c in cols)
+            if not zero:
+                seen_nonzero.add((k, n))
+            elif (k, n) in seen_nonzero:
+                stats["jacobian-block-exactly-zero-after-nonzero"] = stats.get("jacobian-block-exactly-zero-after-nonzero", 0) + 1
+
     for rec in obs["evals"]:
-        where = f"{ck} at {rec['kind']}/{rec['tag']} point"
+        where = f"{ck} at {rec['kind']}/{rec['tag']} point" + (f" [{rec['dtype']} array]" if rec.get("dtype", "float64") != "float64" else "") + (f" via {rec['via']}" if rec.get("via") else "")
         if "error" in rec:
             bad.append((f"{form.lower()}-evaluation-raises", f"{where}: {rec['error']} {rec.get('error_msg')}"))
             continue
@@ -1349,6 +1472,8 @@ def oracle_config(case, obs) -> list[tuple[str, str]]:
                 m = cmp_mat(rec["jacs"][k], ej, b)
                 if m:
                     bad.append((f"idf-{kind}-jac", f"{where}: {kind} {k - 1 if k else ''} Jacobian {m}"))
+                if not rec.get("via"):
+                    note_blocks(k, ej)
                 if kind == "consistency":
                     if rec["kind"] == "anchor" and b == 0:
                         if not all(isinstance(a, float) and a == 0.0 for a in rec["vals"][k]):
@@ -1382,6 +1507,8 @@ def oracle_config(case, obs) -> list[tuple[str, str]]:
                 m = cmp_mat(rec["jacs"][k], ej, BOUND)
                 if m:
                     bad.append((f"{form.lower()}-{kind}-jac", f"{where}: {kind} {k - 1 if k else ''} total derivative {m}"))
+                if not rec.get("via"):
+                    note_blocks(k, ej)
     if form == "IDF" and cfg.get("eq") and not obs.get("doe"):
         # start_at_equilibrium: the couplings' current values are the multidisciplinary solution at the current x
         cur = obs.get("current")
@@ -1848,6 +1975,30 @@ def _simplifications(case):
             for p in c["points"]:
                 p["x"].pop(v["name"], None)
             yield c
+    # plain representations: float64 points, float variables, dense Jacobians
+    if case.get("xdtype", "float64") != "float64":
+        c = copy.deepcopy(case)
+        c["xdtype"] = "float64"
+        yield c
+    if any(v.get("type") == "integer" for v in case["ds"]):
+        c = copy.deepcopy(case)
+        for v in c["ds"]:
+            v.pop("type", None)
+        yield c
+    if any(d.get("jac_storage", "dense") != "dense" for d in case["discs"]):
+        c = copy.deepcopy(case)
+        for d in c["discs"]:
+            d["jac_storage"] = "dense"
+        yield c
+    for di, d in enumerate(case["discs"]):
+        if d.get("jac_storage", "dense") == "mixed":
+            c = copy.deepcopy(case)
+            c["discs"][di]["jac_storage"] = "csr"
+            yield c
+    if case.get("xmode") == "shared":
+        c = copy.deepcopy(case)
+        c["xmode"] = "fresh"
+        yield c
     # design-space order: alphabetical
     srt = sorted(case["ds"], key=lambda v: v["name"])
     if srt != case["ds"]:
@@ -1928,6 +2079,12 @@ def run_case(res: Result, case, rng_mask, pending: list | None, origin: str) -> 
     if any(d.get("defaults") for d in case["discs"]):
         res.count("fixed-parameter")
     res.count(f"caller-input-array={case.get('xmode', 'fresh')}")
+    res.count(f"caller-point-dtype={case.get('xdtype', 'float64')}")
+    ints = int_names(case)
+    res.count("design-space-types=" + ("float" if not ints else "all-integer-design-variables" if ints >= set(design_names(case)) else "mixed-integer-float"))
+    for d in case["discs"]:
+        res.count(f"discipline-jacobian-storage={d.get('jac_storage', 'dense')}")
+    res.count("vanishing-jacobian-blocks-in-case", len(case.get("vanish", [])))
     for ck, obs in obs_by_key.items():
         if obs.get("doe") and obs.get("probe"):
             res.count("doe-probe-duplicate-function-names" + ("-mismatch" if obs.get("probe_mismatch") else ""))
@@ -1943,6 +2100,11 @@ def run_case(res: Result, case, rng_mask, pending: list | None, origin: str) -> 
             res.notes.append(f"{origin}: {ck} not observed ({obs['skipped'][:120]})")
             continue
         res.count(f"cfg={ck}")
+        for r in obs.get("evals", []):
+            if "vals" in r:
+                res.count(f"evaluation-point-array-dtype={r.get('dtype', 'float64')}" + ("@current-value" if r.get("via") else ""))
+        for sk, sv in obs.get("stats", {}).items():
+            res.count(sk, sv)
         res.count("function-evaluations", sum(len(r.get("vals", [])) for r in obs.get("evals", [])))
         res.count("arrays-held-across-calls", sum(len(r.get("held_vals", [])) + len(r.get("held_jacs", [])) for r in obs.get("evals", [])))
         if obs["cfg"].get("par") and obs["cfg"].get("eq") and "current" in obs:
@@ -2076,6 +2238,7 @@ def gen_opt_case(rng: common.Rng):
         case["objective"] = "fo"
         case["constraints"] = []
         for v in case["ds"]:
+            v.pop("type", None)  # a gradient-based optimiser: continuous variables
             v["lb"] = ["-64"] * v["size"]
             v["ub"] = ["64"] * v["size"]
             if v["value"] is None:
